@@ -133,14 +133,9 @@ def run_one(job):
         return dict(id=k, kind=kind, line=ln, status="does_not_compile", err=str(e)[:100])
     d = tempfile.mkdtemp(prefix="pyvc_ms_", dir="/tmp")
     try:
-        shutil.copytree(os.path.join(REPO, "pysnark"), os.path.join(d, "pysnark"))
-        shutil.copytree(os.path.join(REPO, "test"), os.path.join(d, "test")) if os.path.isdir(os.path.join(REPO, "test")) else None
-        for extra in ("examples", "setup.py", "pytest.ini", "setup.cfg", "tox.ini", "conftest.py"):
-            s = os.path.join(REPO, extra)
-            if os.path.isdir(s):
-                shutil.copytree(s, os.path.join(d, extra))
-            elif os.path.isfile(s):
-                shutil.copy(s, os.path.join(d, extra))
+        # the COMMITTED tree (not the working tree: seeded changes may be applied to /repo while a sweep runs)
+        ar = subprocess.run(["git", "-C", REPO, "archive", "HEAD"], stdout=subprocess.PIPE, check=True).stdout
+        subprocess.run(["tar", "-x", "-C", d], input=ar, check=True)
         with open(os.path.join(d, relfile), "w") as f:
             f.write(text + "\n")
         new_line = text.split("\n")
@@ -188,7 +183,7 @@ def main():
     for x in a[2:]:
         k, _, v = x.lstrip("-").partition("=")
         opt[k] = v
-    src = open(os.path.join(REPO, relfile)).read()
+    src = subprocess.run(["git", "-C", REPO, "show", "HEAD:" + relfile], stdout=subprocess.PIPE, check=True).stdout.decode()
     tree = ast.parse(src)
     ss = sites(tree)
     if opt["only"]:
